@@ -63,16 +63,23 @@ class EFLRItem:
         self._parent = parent  #: EFLRSet instance this item belongs to
         self._parent.register_item(self)
 
-        #: origin reference value, common for records sharing origin
-        self._origin_reference: Union[int, None] = self._validate_origin_reference(origin_reference, allow_none=True)
+        try:
+            #: origin reference value, common for records sharing origin
+            self._origin_reference: Union[int, None] = self._validate_origin_reference(origin_reference,
+                                                                                       allow_none=True)
 
-        #: copy number of the item - ith EFLRItem of the same name and type
-        self._copy_number = self._compute_copy_number()
+            #: copy number of the item - ith EFLRItem of the same name and type
+            self._copy_number = self._compute_copy_number()
 
-        for attribute in self.attributes.values():
-            attribute.parent_eflr = self
+            for attribute in self.attributes.values():
+                attribute.parent_eflr = self
 
-        self.set_attributes(**{k: v for k, v in kwargs.items() if v is not None})
+            self.set_attributes(**{k: v for k, v in kwargs.items() if v is not None})
+
+        except Exception:
+            # the item could not be set up: do not leave it behind in the set
+            self._parent.unregister_item(self)
+            raise
 
     @property
     def parent(self) -> "EFLRSet":
